@@ -15,6 +15,8 @@ CLAIMED = {
  "C06": ("OnlyRelayers (accepted updates/receives only from registered signers, per the real registry), AckRelayerField, RejectNoChange and ClientsOnlyByUpdate are evaluated by TLC on every replayed real step.", XNOTE + " Privileged contract methods and TSS clients are not yet covered by this check (planned extension)."),
  "C13": ("Store.tla (store keys as byte-token sequences, the iterators that parse them back, Export/Validate/Import) is model-checked by TLC for RoundTrip, Valid, Idempotent, ParseBack and Injective over all byte patterns of heights and revisions (including the separator byte inside binary heights); TLC-generated create/update/toggle sequences are replayed on the real application and after every step a real genesis round trip (export, module validation, InitChain of a fresh application, raw store comparison, second export) is judged by TLC, and the keys the model predicts to be lost are compared with the keys really lost.",
          "Client types in the replay: Tendermint (synthetic counterparty, real signed headers) and TSS. W=2 abstract bytes per uint64 over {0x2f,0x61,0x00}. Raw comparison covers the xibc and aggregate stores and the parameter subspaces of xibc/aggregate/rvesting."),
+ "C18": ("Lifecycle.tla (create/upgrade/toggle proposals with valid and invalid contents, MsgUpdateClient per client type) is model-checked by TLC for Initialised, ConsHaveMeta, TssKeepsNothing, FailureChangesNothing, UpgradeKeepsType, ToggleChangesType, CreateOnlyUnused; TLC-generated sequences are replayed on the real application against a real counterparty chain, and TLC judges on the recorded real client store after every step: InstallsExactly, Initialised, Usable (Status active, a real proof at the installed height verifies, a valid update succeeds), FailureChangesNothing (store digest), ValidUpdateSucceeds for every type, plus conformance of every step.",
+         "Client types in the replay: Tendermint and TSS (BSC/ETH lifecycle is covered in their own drivers once built). Proposals run through the routed gov handler in a cache context."),
  "C20": ("RVesting.tla is model-checked exhaustively by TLC within small bounds; TLC-generated behaviours (block and parameter-change sequences) are replayed on the real application and TLC evaluates Release/NothingElse/SupplyConst/NoMove on every recorded real step, plus conformance of every step with the specification's action.",
          "Bounds: 2 denominations, rewards 0..2(3), 1..2 entries, pools 0..3(5). Bank keeper trusted. Parameter changes run through the routed params proposal handler in a cache context."),
 }
